@@ -227,6 +227,14 @@ def auto_discharge(body, src):
             r7 = _guarded_decrement(body, src.bb, op_local(ops[0]))
             if r7:
                 return r7
+        # A8: `i + 1` where i is the counter of a counted loop with a constant limit (i stays below the limit, far from the type's max)
+        if kind == "Overflow(Add)" and len(ops) == 2 and (op_const(ops[1]) or {}).get("int") == 1 and op_local(ops[0]) is not None:
+            from .loops import counted_loop, unexplained_loops
+            for scc in unexplained_loops(body):
+                if src.bb in scc:
+                    cl = counted_loop(body, scc)
+                    if cl and cl["direction"] == "up" and cl.get("limit") is not None and cl["limit"] < 2 ** 31 and src.bb in cl["step_blocks"] + [b_ for b_ in scc if body.succ[b_] and any(x in cl["step_blocks"] for x in body.succ[b_])]:
+                        return "A8 counter of a counted loop bounded by the constant %s" % cl["limit"]
         # find the checked op statement in the block
         for st in reversed(blk["stmts"]):
             if st["s"] == "assign" and st["rv"]["k"] == "binop" and st["rv"]["op"].endswith("WithOverflow"):
